@@ -176,13 +176,81 @@ func extraReps() []rep {
 	}
 }
 
+// variant is one way of sending a representative to the live server.
+type variant struct {
+	rp rep
+	// ackFam >= 0: connection 1's server socket has one emit outstanding whose ack callback is of that
+	// signature family, and the representative (an ACK) gets that emit's id, so that serverSocket.onAck
+	// decodes it for the callback. -1: sent as it is (an ACK then hits "no emit waits for it").
+	ackFam int
+	// first: the representative is the first thing connection 1 sends (CONNECT with its auth payload is
+	// only decoded for a connection that has not joined the namespace yet).
+	first bool
+}
+
+func (v variant) name() string {
+	switch {
+	case v.ackFam >= 0:
+		return "process/ack-for-" + families[v.ackFam].name + "-callback/" + v.rp.Name
+	case v.first:
+		return "process/as-first-packet/" + v.rp.Name
+	}
+	return "process/" + v.rp.Name
+}
+
+// withAckID replaces (or inserts) the ack id of an ACK / BINARY_ACK frame for namespace "/".
+func withAckID(frame, id string) (string, bool) {
+	if len(frame) == 0 || (frame[0] != '3' && frame[0] != '6') {
+		return "", false
+	}
+	i := 1
+	if frame[0] == '6' {
+		j := strings.IndexByte(frame, '-')
+		if j < 0 {
+			return "", false
+		}
+		for _, c := range frame[1:j] {
+			if c < '0' || c > '9' {
+				return "", false
+			}
+		}
+		i = j + 1
+	}
+	if i < len(frame) && frame[i] == '/' {
+		return "", false
+	}
+	j := i
+	for j < len(frame) && frame[j] >= '0' && frame[j] <= '9' {
+		j++
+	}
+	return frame[:i] + id + frame[j:], true
+}
+
+// ackIDOf extracts the ack id of an EVENT frame such as `20["q"]` (namespace "/").
+func ackIDOf(frame string) (string, bool) {
+	j := 1
+	for j < len(frame) && frame[j] >= '0' && frame[j] <= '9' {
+		j++
+	}
+	return frame[1:j], j > 1
+}
+
+func (v variant) frames(ackID string) []repFrame {
+	out := append([]repFrame{}, v.rp.Frames...)
+	if v.ackFam >= 0 {
+		if f, ok := withAckID(out[0].Data, ackID); ok {
+			out[0].Data = f
+		}
+	}
+	return out
+}
+
 // expectation derives, with the (pure) decoder, whether the server has an error to report for a
-// representative sent to a socket of namespace "/" that has all families registered for repEventNames and
-// no outstanding acks. stage says where the input ends up (it is part of violation keys: one key per stage,
-// not per input).
-func expectation(rp rep) (expectErr bool, stage, why string) {
+// representative sent to a socket of namespace "/" that has all families registered for repEventNames.
+// stage says where the input ends up (it is part of violation keys: one key per stage, not per input).
+func expectation(v variant) (expectErr bool, stage, why string) {
 	p := newParser(0)
-	for i, f := range rp.Frames {
+	for i, f := range v.frames("0") {
 		r := step(p, []byte(f.Data))
 		switch r.kind {
 		case stepPanic:
@@ -193,9 +261,27 @@ func expectation(rp rep) (expectErr bool, stage, why string) {
 			if r.header.Namespace != "/" && r.header.Namespace != "" {
 				return false, "packet for a namespace the connection has not joined", ""
 			}
+			one := func(fam family, what string) (bool, string, string) {
+				var err error
+				if pn := guard(func() { _, err = r.decode(fam.types...) }); pn != nil {
+					return false, "decoding " + what + " panics", ""
+				}
+				if err != nil {
+					return true, "decoding " + what + " fails", fmt.Sprintf("decode fails for the %s handler (%s)", fam.name, errClass(err))
+				}
+				return false, what + " decoded", ""
+			}
 			switch r.header.Type {
+			case parser.PacketTypeConnect:
+				if v.first {
+					return one(authFamily, "the CONNECT packet's auth payload")
+				}
+				return false, "control packet", ""
 			case parser.PacketTypeAck, parser.PacketTypeBinaryAck:
-				return true, "ACK that no emit waits for", "an ACK that no emit is waiting for"
+				if v.ackFam < 0 || r.header.ID == nil {
+					return true, "ACK that no emit waits for", "an ACK that no emit is waiting for"
+				}
+				return one(families[v.ackFam], "the ack's arguments")
 			case parser.PacketTypeEvent, parser.PacketTypeBinaryEvent:
 				registered := false
 				for _, n := range repEventNames() {
@@ -207,15 +293,11 @@ func expectation(rp rep) (expectErr bool, stage, why string) {
 					return false, "event without handlers", ""
 				}
 				for _, fam := range families {
-					var err error
-					if pn := guard(func() { _, err = r.decode(fam.types...) }); pn != nil {
-						return false, "decoding the event's arguments panics", ""
-					}
-					if err != nil {
-						return true, "decoding the event's arguments fails", fmt.Sprintf("decode fails for the %s handler (%s)", fam.name, errClass(err))
+					if e, st, w := one(fam, "the event's arguments"); e || strings.HasSuffix(st, "panics") {
+						return e, st, w
 					}
 				}
-				return false, "event decoded for every handler", ""
+				return false, "the event's arguments decoded", ""
 			}
 			return false, "control packet", ""
 		}
@@ -223,30 +305,34 @@ func expectation(rp rep) (expectErr bool, stage, why string) {
 	return false, "packet still waiting for attachments", ""
 }
 
-// threadRole names the production counterpart of a modelled thread.
-func threadRole(site string) string {
+// threadRole names the production counterpart of a modelled thread: short form for the key, and what an
+// uncaught panic there means.
+func threadRole(site string) (short, long string) {
 	switch {
 	case strings.HasPrefix(site, "conn1-transport"):
-		return "the connection's transport goroutine (Parser.Add runs in the engine.io read loop / HTTP handler)"
+		return "the goroutine that feeds the connection's frames to Parser.Add (serverConn.onEIOPacket)",
+			"in the server this is an HTTP handler goroutine (polling POST / websocket read loop): net/http recovers the panic, the request or read loop dies, the error is not reported to the socket and the connection is not closed; the Go client runs the same parser on a bare goroutine (see the client/ scenarios)"
 	case strings.Contains(site, "onParserFinish"):
-		return "the bare per-packet goroutine of serverConn.onParserFinish (no recover: process exit)"
+		return "the bare per-packet goroutine of serverConn.onParserFinish", "no recover between this goroutine and the runtime: the server process exits"
 	}
-	return "thread " + site
+	return "thread " + site, ""
 }
 
-func processScenario(rp rep, bound int) *vx.Scenario {
-	expectErr, stage, why := expectation(rp)
+func processScenario(v variant, bound int) *vx.Scenario {
+	rp := v.rp
+	expectErr, stage, why := expectation(v)
 	names := repEventNames()
-	sc := &vx.Scenario{Name: "process/" + rp.Name, Bound: bound, Horizon: 2 * time.Minute, AllowPanic: true}
+	sc := &vx.Scenario{Name: v.name(), Bound: bound, Horizon: 2 * time.Minute, AllowPanic: true}
 	sc.Body = func(e *vsched.Exec) func() vx.Result {
 		srv := sio.NewServer(nil)
 		var sv vsched.Var
 		nconn, nreg := 0, 0
 		errs := map[int][]string{}
-		handled := 0
+		socks := map[int]sio.ServerSocket{}
+		handled, acked := 0, 0
 		srv.OnConnection(func(s sio.ServerSocket) {
 			var me int
-			sv.Do(func() { nconn++; me = nconn })
+			sv.Do(func() { nconn++; me = nconn; socks[me] = s })
 			s.OnError(func(err error) { sv.Do(func() { errs[me] = append(errs[me], err.Error()) }) })
 			note := func() { sv.Do(func() { handled++ }) }
 			for _, name := range names {
@@ -263,15 +349,54 @@ func processScenario(rp rep, bound int) *vx.Scenario {
 		f1 := vrig.NewFakeEIO(srv, "conn1")
 		var f3 *vrig.FakeEIO
 		sent := false
+		var sentFrames []repFrame
 		// the whole drive runs on its own thread: thread 0 must return the final check whatever happens
 		vsched.GoQuiet("driver", func() {
 			// connection order fixes the numbering seen by OnConnection: conn2 first, then conn1
+			// (settle after every connect: serverConn.connect stores the socket in conn.sockets only after
+			// the CONNECT reply went out and the connection handlers were started, so a packet sent right
+			// after the reply can find no socket and gets the connection closed as "invalid state" - a
+			// connect/first-event race that is C01's business, not a consequence of the malformed input)
 			f2.ConnectNS("/")
 			vsched.Await(func() bool { return nreg == 1 })
-			f1.ConnectNS("/")
-			vsched.Await(func() bool { return nreg == 2 })
+			vrig.Settle(time.Second)
+			ackID := ""
+			if !v.first {
+				f1.ConnectNS("/")
+				vsched.Await(func() bool { return nreg == 2 })
+				vrig.Settle(time.Second)
+			}
+			if v.ackFam >= 0 {
+				got := func() { sv.Do(func() { acked++ }) }
+				var cb any
+				switch v.ackFam {
+				case 0:
+					cb = func(b sio.Binary) { got() }
+				case 1:
+					cb = func(m map[string]any) { got() }
+				case 2:
+					cb = func(v any) { got() }
+				case 3:
+					cb = func(v structArg) { got() }
+				default:
+					cb = func() { got() }
+				}
+				socks[2].Emit("q", cb)
+				vsched.Await(func() bool {
+					for _, t := range f1.Texts() {
+						if strings.Contains(t, `["q"`) {
+							var ok bool
+							ackID, ok = ackIDOf(t)
+							return ok
+						}
+					}
+					return false
+				})
+			}
+			frames := v.frames(ackID)
+			sv.Do(func() { sentFrames = frames })
 			vsched.GoQuiet("conn1-transport", func() {
-				for _, fr := range rp.Frames {
+				for _, fr := range frames {
 					if fr.Bin {
 						f1.InPackets(vrig.Bin([]byte(fr.Data)))
 					} else {
@@ -283,15 +408,21 @@ func processScenario(rp rep, bound int) *vx.Scenario {
 			vrig.Settle(2 * time.Second)
 			f2.In(`27["echo","x"]`)
 			f2.AwaitFrame(`37["x"]`)
+			before := nreg
 			c3 := vrig.NewFakeEIO(srv, "conn3")
 			sv.Do(func() { f3 = c3 })
 			c3.ConnectNS("/")
-			vsched.Await(func() bool { return nreg == 3 })
+			vsched.Await(func() bool { return nreg == before+1 })
+			vrig.Settle(time.Second)
 			c3.In(`28["echo","y"]`)
 			c3.AwaitFrame(`38["y"]`)
 		})
 		return func() vx.Result {
 			var r vx.Result
+			shown := showRep(rep{Frames: sentFrames})
+			if sentFrames == nil {
+				shown = showRep(rp)
+			}
 			npanic := 0
 			for _, t := range e.Threads() {
 				if t.Panic == nil {
@@ -300,29 +431,35 @@ func processScenario(rp rep, bound int) *vx.Scenario {
 				npanic++
 				fn, via := sitesFromStackText(t.Stack)
 				pi := &panicInfo{Fn: fn, Via: via, What: normalisePanic(t.Panic)}
-				role := threadRole(t.Site)
-				r.Violate("process: uncaught "+pi.key()+", on "+role,
-					"input %s sent to a live server: %v; no recover between this goroutine and the runtime", showRep(rp), t.Panic)
+				short, long := threadRole(t.Site)
+				r.Violate("process: uncaught "+pi.key()+", on "+short,
+					"[%s] frames %s sent to a live server: %v (thread %s); %s", v.name(), shown, t.Panic, t.Site, long)
 			}
+			// the connection that was attacked is the second to register, the fresh one the last
+			conn1, other := 2, []int{1, 3}
 			echo2 := f2.HasPrefix(`37["x"]`)
 			echo3 := f3 != nil && f3.HasPrefix(`38["y"]`)
 			if !echo2 {
-				r.Violate("process: the idle connection 2 no longer completes an event->ack echo after connection 1 received an input of the kind: "+stage, "[%s] after %s on connection 1, connection 2 got: %s", rp.Name, showRep(rp), f2)
+				r.Violate("process: the idle connection 2 no longer completes an event->ack echo after connection 1 received an input of the kind: "+stage, "[%s] after %s on connection 1, connection 2 got: %s", v.name(), shown, f2)
 			} else if !echo3 {
 				got := "(never attached)"
 				if f3 != nil {
 					got = f3.String()
 				}
-				r.Violate("process: a fresh connection 3 does not complete an event->ack echo after connection 1 received an input of the kind: "+stage, "[%s] after %s on connection 1, connection 3 got: %s", rp.Name, showRep(rp), got)
+				r.Violate("process: a fresh connection 3 does not complete an event->ack echo after connection 1 received an input of the kind: "+stage, "[%s] after %s on connection 1, connection 3 got: %s", v.name(), shown, got)
 			}
-			if expectErr && npanic == 0 && len(errs[2]) == 0 && f1.Closed == 0 {
+			if expectErr && npanic == 0 && len(errs[conn1]) == 0 && f1.Closed == 0 {
 				r.Violate("process: error neither reported to the socket's error handlers nor answered by closing the connection: "+stage,
-					"[%s] input %s: %s, but no OnError handler of connection 1 ran and connection 1 was not closed (frames sent to it: %s)", rp.Name, showRep(rp), why, f1)
+					"[%s] frames %s: %s, but no OnError handler of connection 1 ran and connection 1 was not closed (frames sent to it: %s)", v.name(), shown, why, f1)
 			}
-			if len(errs[1]) > 0 || len(errs[3]) > 0 {
-				r.Violate("process: an error of connection 1 was reported on another connection", "errors seen by conn2: %v, conn3: %v", errs[1], errs[3])
+			if !v.first || nconn == 3 {
+				for _, o := range other {
+					if len(errs[o]) > 0 {
+						r.Violate("process: an error of connection 1 was reported on another connection", "[%s] errors seen by connection #%d: %v", v.name(), o, errs[o])
+					}
+				}
 			}
-			r.Outcome = fmt.Sprintf("sent=%v errors=%d closed=%v handled=%d panics=%d echo2=%v echo3=%v", sent, len(errs[2]), f1.Closed > 0, handled, npanic, echo2, echo3)
+			r.Outcome = fmt.Sprintf("sent=%v errors=%d closed=%v handled=%d acked=%d panics=%d echo2=%v echo3=%v", sent, len(errs[conn1]), f1.Closed > 0, handled, acked, npanic, echo2, echo3)
 			return r
 		}
 	}
@@ -341,17 +478,39 @@ func showRep(rp rep) string {
 	return showFrames(fr)
 }
 
+// variants lists how every representative is sent: as it is; every ACK for namespace "/" additionally once
+// per callback family with a matching outstanding emit; every CONNECT additionally as the first packet.
+func variants() []variant {
+	var out []variant
+	for _, rp := range representatives() {
+		out = append(out, variant{rp: rp, ackFam: -1})
+		f0 := rp.Frames[0].Data
+		if _, ok := withAckID(f0, "0"); ok {
+			for k := range families {
+				out = append(out, variant{rp: rp, ackFam: k})
+			}
+		}
+		if strings.HasPrefix(f0, "0") {
+			out = append(out, variant{rp: rp, ackFam: -1, first: true})
+		}
+	}
+	return out
+}
+
 func scenarios(tier string) []*vx.Scenario {
 	if skipProcessHalf() {
 		return nil
 	}
 	bound := 1
+	if tier == "thorough" {
+		bound = 2
+	}
 	var out []*vx.Scenario
-	for _, rp := range representatives() {
-		out = append(out, processScenario(rp, bound))
+	for _, v := range variants() {
+		out = append(out, processScenario(v, bound))
 	}
 	for _, rp := range clientReps() {
-		out = append(out, clientScenario(rp, bound))
+		out = append(out, clientScenario(rp, 1)) // the polling link makes these executions long: bound 1 in both tiers
 	}
 	return out
 }
